@@ -3,6 +3,7 @@ package loadbalancer
 import (
 	"fmt"
 	"net/http"
+	"strings"
 	"testing"
 	"time"
 
@@ -270,6 +271,50 @@ func TestVerifC09Sys(t *testing.T) {
 		r.AddScenario(vres.Scenario{Name: fmt.Sprintf("limiter-sys-max%d", max), Engine: "H", Executions: evals, States: evals, Transitions: evals * int64(depth),
 			Outcomes: outs.N(), Bound: fmt.Sprintf("all histories of length %d over %d address spellings of two clients and a clock step, through ServeHTTP", depth, len(c09ySpellings)),
 			Exhaustive: true, Sample: map[string]interface{}{"history": c09yNames(hist)}, Extra: map[string]interface{}{"wall_s": time.Since(start).Seconds()}})
+	}
+	// header values that are no address at all, or lists with empty elements: whatever client
+	// such a request is attributed to, it is *some* client - the burst bound holds for it, and a
+	// request answered 429 is not forwarded
+	if vh.MyShard(3) {
+		start := time.Now()
+		var evals int64
+		values := []string{", 10.1.2.3", ",10.9.9.9", ",", ", ,", " ", "unknown", "-", "_hidden", "10.1.2.3,", "[", "::", "999.999.999.999", "a b", strings.Repeat("7", 4096)}
+		for _, where := range []string{"X-Forwarded-For", "X-Real-IP"} {
+			for _, val := range values {
+				for max := 1; max <= 3; max++ {
+					admitted, forwarded := 0, 0
+					s := vrt.Run(vrt.Options{Horizon: 1 << 30}, func(s *vrt.Sched) {
+						k := newKit(s, kitOpts{N: 2, Limiter: &config.RateLimitConfig{Enabled: true, MaxTokens: max, RefillRate: 1}})
+						for i := 0; i < max+4; i++ {
+							before := 0
+							for _, h := range k.hitsVector() {
+								before += h
+							}
+							res := k.requestWith("172.16.0.9", nil, func(r *http.Request) { r.RemoteAddr = "172.16.0.9:1"; r.Header.Set(where, val) })
+							after := 0
+							for _, h := range k.hitsVector() {
+								after += h
+							}
+							evals++
+							if res.Status != 429 {
+								admitted++
+							}
+							forwarded += after - before
+						}
+					})
+					if s.Verdict.Kind != vrt.OK {
+						r.Violate("C09/sys/"+s.Verdict.Kind.String(), s.Verdict.Detail, 1, nil)
+						continue
+					}
+					if admitted > max || forwarded > max {
+						r.Violate("C09/sys/burst-bound-exceeded/odd-header-value", fmt.Sprintf("max_tokens=%d: %d requests at the same instant with %s: %.40q: %d admitted, %d forwarded to a backend", max, max+4, where, val, admitted, forwarded), len(val), map[string]interface{}{"engine": "H", "test": "TestVerifC09Sys", "header": where, "value": val, "max": max})
+					}
+				}
+			}
+		}
+		r.AddScenario(vres.Scenario{Name: "limiter-sys-odd-header-values", Engine: "H", Executions: evals, States: evals, Transitions: evals, Outcomes: 1,
+			Bound: fmt.Sprintf("%d values that are no address or have empty list elements x {X-Forwarded-For, X-Real-IP} x max_tokens 1..3, max_tokens+4 simultaneous requests each", len(values)), Exhaustive: true,
+			Extra: map[string]interface{}{"wall_s": time.Since(start).Seconds()}})
 	}
 	// backend outcomes x features
 	odepth := 5
